@@ -371,6 +371,10 @@ class Engine(Interp):
                 src, tags = self.clause(cl)
                 out.append((src, tags, self.spec_eval(src, dict(env), fr.old, fr.contract.namespace if fr.contract else None)))
             return out
+        for n_, ts_ in spec.havoc.items():      # values of declared loop variables are viewed at their declared type
+            ty_ = self.reg.type(ts_)
+            if n_ in env and hasattr(ty_, "coerce"):
+                env[n_] = ty_.coerce(env[n_], self.ctx)
         for src, tags, t in inv_terms():
             self.ctx.oblige("inv-init", t, line, tags=tags or ctags, note=f"loop{k}: {src}")
         # havoc
@@ -471,7 +475,8 @@ class Engine(Interp):
                 self.ctx.assume(self.spec_eval(src, dict(env), None, c.namespace))
             self.ctx.oblige("pre-sat", z3.BoolVal(True), fnode.lineno, expect_sat=True, note="requires satisfiable")
             fr.old = {k: snapshot(v) for k, v in env.items()}
-            old_for_frame = fr.old
+            fr.entry = dict(env)      # parameters in postconditions denote the values passed in (rebinding a
+            #                           parameter inside the body does not change what the contract talks about)
             try:
                 self.exec_block(fnode.body)
                 result = None
@@ -490,6 +495,7 @@ class Engine(Interp):
             if isinstance(rty, TData):
                 result = SData(rty.unwrap(result, self.ctx), rty)
         post_env = dict(env)
+        post_env.update(getattr(self.frame, "entry", {}))
         post_env["result"] = result
         # iff-conditions of raises: a normal return means none of them held
         for exc_name, cond in c.raises.items():
